@@ -166,68 +166,78 @@ def still_fails(mod, scenario, values, rule):
     return None
 
 
-def minimise(mod, scenario, values, rule, budget_s=45.0, max_tries=400):
-    """delta debugging on the tape: truncate, zero chunks, lower values"""
+def minimise(mod, scenario, values, rule, budget_s=45.0, max_tries=500):
+    """delta debugging on the tape: truncate, zero whole label groups, zero
+    chunks, delete draws, lower values.  A candidate is kept iff the run still
+    yields a violation of the same rule."""
     t_end = time.perf_counter() + budget_s
     tries = 0
     best = list(values)
+    labels = None
 
-    def ok(cand):
-        nonlocal tries
-        tries += 1
-        if tries > max_tries or time.perf_counter() > t_end:
+    def attempt(cand):
+        nonlocal tries, best, labels
+        if tries >= max_tries or time.perf_counter() > t_end:
             return False
-        return still_fails(mod, scenario, cand, rule) is not None
+        tries += 1
+        got = still_fails(mod, scenario, cand, rule)
+        if got is None:
+            return False
+        tape = got[1]["tape"]
+        best = list(tape.values)        # what was actually consumed
+        labels = list(tape.labels)
+        while best and best[-1] == 0:
+            best.pop()
+        return True
 
-    # strip trailing zeros (a draw past the end is 0 anyway)
-    while best and best[-1] == 0:
-        best.pop()
-    # shortest failing prefix (binary search; failure need not be monotone, so verify)
+    if not attempt(best):
+        return list(values), tries
+    # shortest failing prefix (failure need not be monotone, so every step verifies)
     lo, hi = 0, len(best)
+    base = list(best)
     while lo < hi:
         mid = (lo + hi) // 2
-        if ok(best[:mid]):
-            hi = mid
+        if attempt(base[:mid]):
+            hi = min(mid, len(best))
+            base = list(best)
         else:
             lo = mid + 1
-    if hi < len(best) and ok(best[:hi]):
-        best = best[:hi]
+    # zero all draws of one label at a time (structure-aware, cheap)
+    progress = True
+    while progress and tries < max_tries and time.perf_counter() < t_end:
+        progress = False
+        groups = collections.Counter(l for l, v in zip(labels, best) if v)
+        for label, _ in groups.most_common():
+            cand = [0 if (i < len(labels) and labels[i] == label) else v
+                    for i, v in enumerate(best)]
+            if cand != best and attempt(cand):
+                progress = True
+                break
     # zero chunks, halving the chunk size
     size = max(1, len(best) // 2)
     while size >= 1 and tries < max_tries and time.perf_counter() < t_end:
         i = 0
-        changed = False
         while i < len(best):
             if any(best[i:i + size]):
                 cand = best[:i] + [0] * len(best[i:i + size]) + best[i + size:]
-                if ok(cand):
-                    best = cand
-                    changed = True
+                attempt(cand)
             i += size
-        if size == 1 and not changed:
-            break
-        size = size // 2 if size > 1 else (1 if changed else 0)
+        size //= 2
     # delete single draws (shifts the rest; sometimes shortens a lot)
     i = 0
     while i < len(best) and tries < max_tries and time.perf_counter() < t_end:
-        cand = best[:i] + best[i + 1:]
-        if ok(cand):
-            best = cand
-        else:
+        if not attempt(best[:i] + best[i + 1:]):
             i += 1
     # lower remaining values
-    for i, v in enumerate(best):
-        if tries >= max_tries or time.perf_counter() > t_end:
-            break
-        while v > 1:
-            cand = best[:i] + [v // 2] + best[i + 1:]
-            if ok(cand):
-                best = cand
-                v //= 2
+    i = 0
+    while i < len(best) and tries < max_tries and time.perf_counter() < t_end:
+        v = best[i]
+        while v > 1 and i < len(best):
+            if attempt(best[:i] + [v // 2] + best[i + 1:]):
+                v = best[i] if i < len(best) else 0
             else:
                 break
-    while best and best[-1] == 0:
-        best.pop()
+        i += 1
     return best, tries
 
 
